@@ -203,10 +203,20 @@ class Driver:
         self.calls = 0
         self.lines = 0
 
-    def run(self, lines, timeout=1800):
+    def run(self, lines, timeout=1800, parallel=None):
+        """one output line per input line; large batches are split over several driver processes
+        (operations are independent, order of results is preserved)"""
         lines = list(lines)
         if not lines:
             return []
+        nproc = parallel if parallel is not None else (min(16, os.cpu_count() or 1) if len(lines) >= 1500 else 1)
+        if nproc > 1:
+            from concurrent.futures import ThreadPoolExecutor
+            size = (len(lines) + nproc * 4 - 1) // (nproc * 4)
+            chunks = [lines[i:i + size] for i in range(0, len(lines), size)]
+            with ThreadPoolExecutor(nproc) as ex:
+                parts = list(ex.map(lambda c: self.run(c, timeout=timeout, parallel=1), chunks))
+            return [x for part in parts for x in part]
         for ln in lines:
             assert '\n' not in ln
         rc, out, err = _run(self.cmd, cwd=LEAN_DIR, timeout=timeout, input='\n'.join(lines) + '\n')
